@@ -426,7 +426,7 @@ func (r Relation) EqualRelation(r2 Relation) bool {
 func (r Relation) Hash(seed uintptr) uintptr {
 	var h uintptr
 	for i := r.Enumerator(); i.MoveNext(); {
-		h ^= i.Current().Hash(seed)
+		h ^= hashMember(i.Current(), seed)
 	}
 	return h
 }
